@@ -154,3 +154,8 @@ def replay_core(rp):
     sc = scenario_from_json(sc_json)
     print(run_real(sc))
     return 0
+
+
+def real_chain(js_list):
+    scs = [scenario_from_json(j) for j in js_list]
+    return world.run_chain(scs)
